@@ -112,7 +112,8 @@ def rule_init(R):
                     ok0 = bool(errs)
     R.ob("init/zero-rejected", ok0, "a CONNACK Receive Maximum of 0 is rejected as an invalid packet", where=hb.span)
     a = roles.connack_property_arms(f).get("ReceiveMaximum")
-    okh = a is not None and a["unconditional"] and {nm for nm, v in a["stores"]} >= {"send_quota", "max_send_quota"}
+    okh = a is not None and a["unconditional"] and bool(roles.arm_values_for(a, RUNTIME, "send_quota")) and \
+        bool(roles.arm_values_for(a, RUNTIME, "max_send_quota"))
     R.ob("init/receive-maximum-honoured", okh,
          "whenever the CONNACK carries a (non-zero) Receive Maximum both the quota and its maximum are set from it, on every path",
          where=a["span"] if a else hb.span)
